@@ -692,7 +692,10 @@ fn oracles(
             }
         }
         if ok {
-            rustc_queue.push((format!("{raw}\n{}", run.bindings), full.bindings.clone(), case_json(c)));
+            // region of known finding `derive_through_blocklisted_opaque`
+            let both: Vec<&str> = run.dump.items.iter().filter(|it| it.kind == "type" && it.blocklisted && it.opaque && it.type_kind.as_deref() == Some("Comp")).map(|it| it.name.as_str()).collect();
+            let head = if both.is_empty() { String::new() } else { format!("// blocklisted-and-opaque: {}\n", both.join(", ")) };
+            rustc_queue.push((format!("{head}{raw}\n{}", run.bindings), full.bindings.clone(), case_json(c)));
         }
     }
 }
@@ -758,6 +761,9 @@ fn run_rustc(queue: &[(String, String, String)], st: &mut Stats, fails: &mut Vec
                             eprintln!("baseline does not compile: {}", fe.lines().filter(|l| l.starts_with("error")).take(3).collect::<Vec<_>>().join(" | "));
                         }
                         st.rustc_baseline_broken += 1;
+                    } else if b.starts_with("// blocklisted-and-opaque") && (e.contains("E0204") || e.contains("E0740") || e.contains("E0277")) && !e.contains("E0425") && !e.contains("E0412") && !e.contains("E0080") {
+                        // known finding `derive_through_blocklisted_opaque` (region computed from the dump in `oracles`)
+                        st.known("derive_through_blocklisted_opaque", format!("{}; input {}", b.lines().next().unwrap_or(""), &input[..input.len().min(1500)]));
                     } else {
                         let first: String = e.lines().filter(|l| l.starts_with("error")).take(3).collect::<Vec<_>>().join(" | ");
                         fails.push(Failure { kind: "oracle-compile", detail: format!("bindings with blocklisted types do not compile against user-supplied definitions of the C size/alignment (no derives): {first}"), input: input.clone() });
@@ -903,7 +909,7 @@ fn main() {
     let mut rng = Rng::new(args.seed);
     let mut st = Stats::default();
     let mut fails: Vec<Failure> = vec![];
-    let (n_graphs, n_sel) = if thorough { (1000, 6) } else { (150, 3) };
+    let (n_graphs, n_sel) = if thorough { (800, 6) } else { (150, 3) };
 
     let mut r2 = rng.fork();
     forsize(&mut r2, thorough, &mut st, &mut fails);
